@@ -163,6 +163,56 @@ Fixpoint node_iter (t : node) : list (name * rrset_list) :=
                   end) ch
   end.
 
+(* Node::iter as the code has it: the explicit-stack state machine of Iter::execute_state_machine,
+   driven by Iterator::next's loop until exhaustion.  [node_iter_sm] is proved equal to the
+   pre-order recursion [node_iter] (Proofs/ZoneIterSmP.v); the runner uses this one. *)
+Inductive iter_state :=
+| ISNode (n : node) (stack : list (list (label * node)))
+| ISChildren (children : list (label * node)) (stack : list (list (label * node)))
+| ISFinished.
+
+(* one call of execute_state_machine: new state, and Some(result) if a value for next() was produced *)
+Definition iter_step (s : iter_state) : iter_state * option (option (name * rrset_list)) :=
+  match s with
+  | ISNode n stack => (ISChildren (node_children n) stack, Some (Some (node_name n, node_data n)))
+  | ISChildren children stack =>
+    match children with
+    | (_, next_child) :: rest => (ISNode next_child (rest :: stack), None)      (* stack.push(children) *)
+    | [] =>
+      match stack with
+      | parent :: stack' => (ISChildren parent stack', None)                   (* stack.pop() *)
+      | [] => (ISFinished, Some None)
+      end
+    end
+  | ISFinished => (ISFinished, Some None)
+  end.
+
+(* collect(): call next() until it returns None; every loop iteration of next() costs one unit of fuel *)
+Fixpoint iter_run (fuel : nat) (s : iter_state) : option (list (name * rrset_list)) :=
+  match fuel with
+  | 0 => None                                   (* model-only: out of fuel *)
+  | S f =>
+    match iter_step s with
+    | (s', None) => iter_run f s'
+    | (s', Some (Some item)) => option_map (cons item) (iter_run f s')
+    | (_, Some None) => Some []
+    end
+  end.
+
+(* number of state-machine steps needed for a subtree *)
+Fixpoint iter_cost (t : node) : nat :=
+  match t with
+  | Node _ ch _ =>
+    1 + (fix go (ch : list (label * node)) : nat :=
+           match ch with
+           | [] => 0
+           | (_, c) :: ch' => 2 + iter_cost c + go ch'
+           end) ch
+  end.
+
+Definition node_iter_sm (t : node) : option (list (name * rrset_list)) :=
+  iter_run (S (iter_cost t)) (ISNode t []).
+
 (* ---------------------------------------------------------------- zone *)
 
 Record zone := mk_zone { z_class : N; z_wide : bool; z_apex : node }.
